@@ -1412,11 +1412,13 @@ func (vc *VC) convert(ins *ssa.Convert) {
 		n, s := vc.arrHeap(types.Typ[types.Uint8])
 		vc.setH(vc.st, n, s, fmt.Sprintf("(store %s %s (sbytes %s))", vc.getH(vc.st, n, s), ref, x))
 		vc.setVal(ins, fmt.Sprintf("(mk_slice %s 0 (slen %s))", ref, x))
+		vc.assume(fmt.Sprintf("(and (= %s (s2c %s)) (= (c2s (s2c %s)) %s))", vc.contentOf(vc.vals[ins], vc.st), x, x, x))
 	case fs == "Slice" && ts == "Str": // string(b)
 		vc.pre.declFun("bytes2str", "((Array Int Int) Int Int) Str")
 		n, s := vc.arrHeap(types.Typ[types.Uint8])
 		vc.setVal(ins, fmt.Sprintf("(bytes2str (select %s (s_ref %s)) (s_off %s) (s_len %s))", vc.getH(vc.st, n, s), x, x, x))
 		vc.assume(fmt.Sprintf("(= (slen %s) (s_len %s))", vc.vals[ins], x))
+		vc.assume(fmt.Sprintf("(and (= %s (c2s %s)) (= (s2c %s) %s))", vc.vals[ins], vc.contentOf(x, vc.st), vc.vals[ins], vc.contentOf(x, vc.st)))
 	case fs == ts:
 		vc.vals[ins] = x
 	case fs == "Int" && ts == "Str":
